@@ -1,13 +1,17 @@
 (* The hyper tree as the Go code stores it (balloon/hyper: batch.go, loader.go, insert_bulk.go / insert.go,
    operation.go, rebuild.go, tree.go): 31-slot batches of height 4, the batches above the cache-height
-   limit in an in-memory cache (with the ones at the recovery height also written to HyperCacheTable), the
+   limit in an in-memory cache (the ones at the recovery height also written to HyperCacheTable), the
    others in HyperTable; shortcut leaves (hash, key, value in three slots); push-down of a shortcut leaf when
    a second key arrives below it.
+
+   A batch is modelled as the complete binary tree its 31 slots form (slot i has the children 2i+1 and 2i+2):
+   `bt_view` lists the slots with their level-order numbers, which is what the correspondence run compares with
+   the serialised batches of the Go tables, slot by slot, after every call.
 
    pruneToInsert(Bulk) builds an operation stack while walking the tree and the stack is interpreted afterwards;
    every batch is loaded once, during the walk, from the state as it was before the call, and every write goes
    to a batch that was loaded in this call, so walking and interpreting can be fused: `node` below returns the
-   hash, the updated batch and the writes, in the order the interpreter produces them for one subtree.
+   hash, the updated (sub)batch and the writes, in the order the interpreter produces them for one subtree.
    None = the Go code would panic or read a slot that holds a key/value as if it were a hash.
    No proofs here. *)
 From QV Require Import Base.Util Base.HashSig Hyper.HyperModel.
@@ -21,41 +25,41 @@ Section HyperBatch.
   Variable ds : list D.                    (* dlist nbits: default hashes, highest first *)
 
   Inductive slot := SHash (d : D) | SLeaf (d : D) | SKey (k : key) | SVal (v : V).
-  Definition batch := list (option slot).              (* 31 slots: slot i has children 2i+1, 2i+2 *)
-  Definition empty_batch : batch := repeat None 31.
+  Inductive bt := BNil | BNode (s : option slot) (l r : bt).
 
-  Fixpoint upd {A} (l : list A) (i : nat) (x : A) : list A :=
-    match l, i with
-    | [], _ => []
-    | _ :: t, O => x :: t
-    | a :: t, S j => a :: upd t j x
+  Fixpoint bempty (levels : nat) : bt :=
+    match levels with O => BNil | S k => BNode None (bempty k) (bempty k) end.
+  Definition empty_batch : bt := bempty 5.             (* 1+2+4+8+16 = 31 slots *)
+
+  Definition rslot (t : bt) : option slot := match t with BNode s _ _ => s | BNil => None end.
+  Definition set_root (t : bt) (s : option slot) : bt := match t with BNode _ l r => BNode s l r | BNil => BNil end.
+
+  (* the slots with their level-order numbers *)
+  Fixpoint bt_view (t : bt) (i : nat) : list (nat * slot) :=
+    match t with
+    | BNil => []
+    | BNode s l r => (match s with Some x => [(i, x)] | None => [] end) ++ bt_view l (2 * i + 1) ++ bt_view r (2 * i + 2)
     end.
-  Definition bget (b : batch) (i : nat) : option slot := nth i b None.
-  Definition bset (b : batch) (i : nat) (s : option slot) : batch := upd b i s.
-  Definition has (b : batch) (i : nat) : bool := match bget b i with Some _ => true | None => false end.
-  Definition has_leaf (b : batch) (i : nat) : bool := match bget b i with Some (SLeaf _) => true | _ => false end.
 
   (* default hash of an empty subtree of height h *)
   Definition dflt (h : nat) : D := nth (nbits - h) ds (H YDef0).
 
   (* getProvidedHash / getDefaultHash on a branch no leaf goes into *)
-  Definition discard (b : batch) (i h : nat) : option D :=
-    match bget b i with
+  Definition discard (t : bt) (h : nat) : option D :=
+    match rslot t with
     | None => Some (dflt h)
     | Some (SHash d) | Some (SLeaf d) => Some d
     | Some _ => None
     end.
 
-  Definition boundary (i h : nat) : bool := Nat.ltb 0 i && Nat.eqb (h mod 4) 0.
-
   (* the three tables *)
-  Inductive wr := WCache (p : hpos) (b : batch) | WTile (p : hpos) (b : batch) | WStore (p : hpos) (b : batch).
-  Record hstate := { hs_cache : list (hpos * batch); hs_tiles : list (hpos * batch); hs_store : list (hpos * batch) }.
+  Inductive wr := WCache (p : hpos) (b : bt) | WTile (p : hpos) (b : bt) | WStore (p : hpos) (b : bt).
+  Record hstate := { hs_cache : list (hpos * bt); hs_tiles : list (hpos * bt); hs_store : list (hpos * bt) }.
   Definition hinit : hstate := {| hs_cache := []; hs_tiles := []; hs_store := [] |}.
 
-  Definition tget (t : list (hpos * batch)) (p : hpos) : batch :=
-    match assoc (hpos_eqb) p t with Some b => b | None => empty_batch end.
-  Fixpoint tset (t : list (hpos * batch)) (p : hpos) (b : batch) : list (hpos * batch) :=
+  Definition tget (t : list (hpos * bt)) (p : hpos) : bt :=
+    match assoc hpos_eqb p t with Some b => b | None => empty_batch end.
+  Fixpoint tset (t : list (hpos * bt)) (p : hpos) (b : bt) : list (hpos * bt) :=
     match t with
     | [] => [(p, b)]
     | (q, c) :: r => if hpos_eqb p q then (q, b) :: r else (q, c) :: tset r p b
@@ -67,113 +71,115 @@ Section HyperBatch.
     | WStore p b => {| hs_cache := hs_cache s; hs_tiles := hs_tiles s; hs_store := tset (hs_store s) p b |}
     end.
 
+  Definition bit_at (pre : list bool) (k : key) : bool := nth (length pre) k false.
+  Definition split (pre : list bool) (leaves : list (key * V)) : list (key * V) * list (key * V) :=
+    (filter (fun kv => negb (bit_at pre (fst kv))) leaves, filter (fun kv => bit_at pre (fst kv)) leaves).
+
+  (* leavesList.InsertSorted of the stored shortcut leaf into the leaves being inserted: a leaf with the same key
+     is already there -> the stored one is dropped *)
+  Definition merge_stored (leaves : list (key * V)) (k : key) (v : V) : list (key * V) :=
+    if existsb (fun kv => key_eqb (fst kv) k) leaves then leaves else (k, v) :: leaves.
+
+  (* AddLeafAt: the hash in the slot itself, key and value in its two children *)
+  Definition shortcut_at (t : bt) (d : D) (k : key) (v : V) : bt :=
+    match t with
+    | BNode _ l r => BNode (Some (SLeaf d)) (set_root l (Some (SKey k))) (set_root r (Some (SVal v)))
+    | BNil => BNil
+    end.
+
   Section Walk.
     Variable st : hstate.                  (* the state before the call: what batches.Load sees *)
 
     (* defaultBatchLoader.Load *)
-    Definition load (p : hpos) : batch :=
+    Definition load (p : hpos) : bt :=
       if Nat.ltb limit (snd p) then tget (hs_cache st) p else tget (hs_store st) p.
 
-    Definition bit_at (pre : list bool) (k : key) : bool := nth (length pre) k false.
-    Definition split (pre : list bool) (leaves : list (key * V)) : list (key * V) * list (key * V) :=
-      (filter (fun kv => negb (bit_at pre (fst kv))) leaves, filter (fun kv => bit_at pre (fst kv)) leaves).
-
-    (* leavesList.InsertSorted of the stored shortcut leaf into the leaves being inserted: a leaf with the same key
-       is already there -> the stored one is dropped *)
-    Definition merge_stored (leaves : list (key * V)) (k : key) (v : V) : list (key * V) :=
-      if existsb (fun kv => key_eqb (fst kv) k) leaves then leaves else (k, v) :: leaves.
-
-    Definition shortcut_batch (b : batch) (i : nat) (d : D) (k : key) (v : V) : batch :=
-      bset (bset (bset b i (Some (SLeaf d))) (2 * i + 1) (Some (SKey k))) (2 * i + 2) (Some (SVal v)).
-
-    (* cached = the batch being walked is one of the cache levels (its root is above the limit) *)
-    Fixpoint node (cached : bool) (h : nat) (pre : list bool) (leaves : list (key * V)) (b : batch) (i : nat)
-      {struct h} : option (D * batch * list wr) :=
-      (* the part of traverseThroughCache / traverseAfterCache that runs for a non-empty leaf list at a slot that
-         is not the root of another batch (or is slot 0 of a freshly loaded one) *)
-      let child (h' : nat) (pre' : list bool) (lv : list (key * V)) (pb : batch) (j : nat) : option (D * batch * list wr) :=
+    (* cached = the batch being walked is one of the cache levels (its root is above the limit);
+       isroot = the subtree t is a whole batch (iBatch = 0) *)
+    Fixpoint node (cached : bool) (h : nat) (pre : list bool) (leaves : list (key * V)) (t : bt) (isroot : bool)
+      {struct h} : option (D * bt * list wr) :=
+      (* what traverseThroughCache / traverseAfterCache do for a child slot (iBatch > 0) *)
+      let child (h' : nat) (pre' : list bool) (lv : list (key * V)) (ct : bt) : option (D * bt * list wr) :=
         match lv with
-        | [] => option_map (fun d => (d, pb, [])) (discard pb j h')
+        | [] => option_map (fun d => (d, ct, [])) (discard ct h')
         | (k0, v0) :: rest =>
             if cached then
-              if boundary j h' then
-                match node (Nat.ltb limit h') h' pre' lv (load (pre', h')) 0 with
-                | Some (d, _, w) => Some (d, bset pb j (Some (SHash d)), w)
+              if Nat.eqb (h' mod 4) 0 then
+                match node (Nat.ltb limit h') h' pre' lv (load (pre', h')) true with
+                | Some (d, _, w) => Some (d, set_root ct (Some (SHash d)), w)
                 | None => None
                 end
-              else node true h' pre' lv pb j
+              else node true h' pre' lv ct false
             else
               match h' with
               | O =>
                   match rest with
                   | [] => let d := H (YLeaf v0 (pre', O)) in
-                          Some (d, bset pb j (Some (SHash d)), [WStore (pre', O) (shortcut_batch empty_batch 0 d k0 v0)])
+                          Some (d, set_root ct (Some (SHash d)), [WStore (pre', O) (shortcut_at empty_batch d k0 v0)])
                   | _ => None      (* "We cannot have more than one leaf at the end of the main tree" *)
                   end
               | _ =>
-                  if boundary j h' then
+                  if Nat.eqb (h' mod 4) 0 then
                     match rest with
                     | [] =>
-                        if has pb j then
-                          match node false h' pre' lv (load (pre', h')) 0 with
-                          | Some (d, _, w) => Some (d, bset pb j (Some (SHash d)), w)
-                          | None => None
-                          end
-                        else
-                          let d := H (YLeaf v0 (pre', h')) in
-                          Some (d, bset pb j (Some (SHash d)), [WStore (pre', h') (shortcut_batch empty_batch 0 d k0 v0)])
+                        match rslot ct with
+                        | Some _ =>
+                            match node false h' pre' lv (load (pre', h')) true with
+                            | Some (d, _, w) => Some (d, set_root ct (Some (SHash d)), w)
+                            | None => None
+                            end
+                        | None =>
+                            let d := H (YLeaf v0 (pre', h')) in
+                            Some (d, set_root ct (Some (SHash d)), [WStore (pre', h') (shortcut_at empty_batch d k0 v0)])
+                        end
                     | _ =>
-                        match node false h' pre' lv (load (pre', h')) 0 with
-                        | Some (d, _, w) => Some (d, bset pb j (Some (SHash d)), w)
+                        match node false h' pre' lv (load (pre', h')) true with
+                        | Some (d, _, w) => Some (d, set_root ct (Some (SHash d)), w)
                         | None => None
                         end
                     end
-                  else node false h' pre' lv pb j
+                  else node false h' pre' lv ct false
               end
         end in
-      match h with
-      | O => None
-      | S h' =>
-          let inner (lv : list (key * V)) (b0 : batch) : option (D * batch * list wr) :=
+      match h, t with
+      | S h', BNode s l r =>
+          let inner (lv : list (key * V)) (l0 r0 : bt) : option (D * bt * list wr) :=
             let '(ll, lr) := split pre lv in
-            match child h' (pre ++ [false]) ll b0 (2 * i + 1) with
+            match child h' (pre ++ [false]) ll l0 with
             | None => None
-            | Some (dl, b1, w1) =>
-                match child h' (pre ++ [true]) lr b1 (2 * i + 2) with
+            | Some (dl, l1, w1) =>
+                match child h' (pre ++ [true]) lr r0 with
                 | None => None
-                | Some (dr, b2, w2) =>
+                | Some (dr, r1, w2) =>
                     let d := H (YNode dr dl (pre, h)) in
-                    let b3 := bset b2 i (Some (SHash d)) in
+                    let t3 := BNode (Some (SHash d)) l1 r1 in
                     let wroot :=
-                      if Nat.eqb i 0 then
-                        if cached then WCache (pre, h) b3 :: (if Nat.eqb h (limit + 4) then [WTile (pre, h) b3] else [])
-                        else [WStore (pre, h) b3]
+                      if isroot then
+                        if cached then WCache (pre, h) t3 :: (if Nat.eqb h (limit + 4) then [WTile (pre, h) t3] else [])
+                        else [WStore (pre, h) t3]
                       else [] in
                     (* the interpreter runs the right subtree's operations before the left one's *)
-                    Some (d, b3, w2 ++ w1 ++ wroot)
+                    Some (d, t3, w2 ++ w1 ++ wroot)
                 end
             end in
-          if cached then inner leaves b
+          if cached then inner leaves l r
           else
             (* push-down of a stored shortcut leaf first (insert_bulk.go; insert.go does it for a single leaf only,
                which is the only case it can meet) *)
-            let '(lv, b0) :=
-              if has_leaf b i then
-                match bget b (2 * i + 1), bget b (2 * i + 2) with
-                | Some (SKey k), Some (SVal v) =>
-                    (merge_stored leaves k v, bset (bset (bset b i None) (2 * i + 1) None) (2 * i + 2) None)
-                | _, _ => (leaves, b)
-                end
-              else (leaves, b) in
-            match lv with
-            | [(k, v)] =>
-                if has b0 i then inner lv b0
-                else
-                  let d := H (YLeaf v (pre, h)) in
-                  let b1 := shortcut_batch b0 i d k v in
-                  Some (d, b1, if Nat.eqb (h mod 4) 0 then [WStore (pre, h) b1] else [])
-            | _ => inner lv b0
+            let '(lv, s0, l0, r0) :=
+              match s, rslot l, rslot r with
+              | Some (SLeaf _), Some (SKey k), Some (SVal v) =>
+                  (merge_stored leaves k v, None, set_root l None, set_root r None)
+              | _, _, _ => (leaves, s, l, r)
+              end in
+            match lv, s0 with
+            | [(k, v)], None =>
+                let d := H (YLeaf v (pre, h)) in
+                let t1 := shortcut_at (BNode s0 l0 r0) d k v in
+                Some (d, t1, if Nat.eqb (h mod 4) 0 then [WStore (pre, h) t1] else [])
+            | _, _ => inner lv l0 r0
             end
+      | _, _ => None
       end.
 
     (* HyperTree.Add / AddBulk: the root hash and the writes (cache.Put is immediate, the store mutations are
@@ -181,7 +187,7 @@ Section HyperBatch.
     Definition walk_insert (leaves : list (key * V)) : option (D * list wr) :=
       match leaves with
       | [] => None                                          (* indexes[0] on an empty bulk *)
-      | _ => match node (Nat.ltb limit nbits) nbits [] leaves (load ([], nbits)) 0 with
+      | _ => match node (Nat.ltb limit nbits) nbits [] leaves (load ([], nbits)) true with
              | Some (d, _, w) => Some (d, w)
              | None => None
              end
@@ -189,42 +195,42 @@ Section HyperBatch.
 
     (* pruneToRebuild + interpretation, from the tiles at the recovery height upwards; idx = the key prefixes of
        the persisted tiles (each of length nbits - (limit+4)) *)
-    Fixpoint rebuild (h : nat) (pre : list bool) (idx : list (list bool)) (b : batch) (i : nat) {struct h}
-      : option (D * batch * list wr) :=
-      let child (h' : nat) (pre' : list bool) (ix : list (list bool)) (pb : batch) (j : nat) :=
+    Fixpoint rebuild (h : nat) (pre : list bool) (idx : list (list bool)) (t : bt) (isroot : bool) {struct h}
+      : option (D * bt * list wr) :=
+      let child (h' : nat) (pre' : list bool) (ix : list (list bool)) (ct : bt) :=
         match ix with
-        | [] => option_map (fun d => (d, pb, [])) (discard pb j h')
+        | [] => option_map (fun d => (d, ct, [])) (discard ct h')
         | _ =>
-            if boundary j h' then
+            if Nat.eqb (h' mod 4) 0 then
               if Nat.eqb h' (limit + 4) then
                 (* traverse: the tile itself is in the cache by now; its root hash is what the parent gets *)
-                match discard (load (pre', h')) 0 h' with
-                | Some d => Some (d, bset pb j (Some (SHash d)), [])
+                match discard (load (pre', h')) h' with
+                | Some d => Some (d, set_root ct (Some (SHash d)), [])
                 | None => None
                 end
               else
-                match rebuild h' pre' ix (load (pre', h')) 0 with
-                | Some (d, _, w) => Some (d, bset pb j (Some (SHash d)), w)
+                match rebuild h' pre' ix (load (pre', h')) true with
+                | Some (d, _, w) => Some (d, set_root ct (Some (SHash d)), w)
                 | None => None
                 end
-            else rebuild h' pre' ix pb j
+            else rebuild h' pre' ix ct false
         end in
-      match h with
-      | O => None
-      | S h' =>
+      match h, t with
+      | S h', BNode _ l r =>
           let il := filter (fun k => negb (nth (length pre) k false)) idx in
           let ir := filter (fun k => nth (length pre) k false) idx in
-          match child h' (pre ++ [false]) il b (2 * i + 1) with
+          match child h' (pre ++ [false]) il l with
           | None => None
-          | Some (dl, b1, w1) =>
-              match child h' (pre ++ [true]) ir b1 (2 * i + 2) with
+          | Some (dl, l1, w1) =>
+              match child h' (pre ++ [true]) ir r with
               | None => None
-              | Some (dr, b2, w2) =>
+              | Some (dr, r1, w2) =>
                   let d := H (YNode dr dl (pre, h)) in
-                  let b3 := bset b2 i (Some (SHash d)) in
-                  Some (d, b3, w2 ++ w1 ++ (if Nat.eqb i 0 then [WCache (pre, h) b3] else []))
+                  let t3 := BNode (Some (SHash d)) l1 r1 in
+                  Some (d, t3, w2 ++ w1 ++ (if isroot then [WCache (pre, h) t3] else []))
               end
           end
+      | _, _ => None
       end.
   End Walk.
 
@@ -243,7 +249,7 @@ Section HyperBatch.
     | _ =>
         if Nat.eqb nbits (limit + 4) then Some s0
         else
-          match rebuild s0 nbits [] (map (fun pb => fst (fst pb)) (hs_tiles s)) (load s0 ([], nbits)) 0 with
+          match rebuild s0 nbits [] (map (fun pb => fst (fst pb)) (hs_tiles s)) (load s0 ([], nbits)) true with
           | Some (_, _, w) => Some (fold_left apply_wr w s0)
           | None => None
           end
